@@ -6,13 +6,20 @@
    recorded schedule must be a permutation of the item indices (the hypothesis
    of run_par_schedule_independent).  A second pair of regions has FAILING items
    (observation 63): the panic rayon re-raises must be the one the model's
-   region reports (the lowest failing index — rayon::join's rule). *)
+   region reports (the lowest failing index — rayon::join's rule).  A third group of
+   regions has items that RETURN an error and is collected into `Result<Vec<_>, E>`
+   (observations 64 / 65; the region of all_pairs / multi_source since the repair of
+   F22): rayon reports which item's error it kept; the model must admit it — it is the
+   error of an erring item, and [gather_result_par] under a schedule that runs that item
+   first returns an error (under the index-order schedule, and for the serial collect,
+   the error of the LOWEST erring index) — and when rayon returned Ok the model's region
+   returns the same vector. *)
 From Coq Require Import String Ascii List Bool ZArith Arith.
 From GV Require Import Base.Outcome Model.GState Model.Par Model.ParFns Run.Obs.
 Import ListNotations.
 Open Scope Z_scope.
 
-Inductive pcase := PProbe (xs : list Z) (sched_vec sched_range : list Z).
+Inductive pcase := PProbe (xs : list Z) (sched_vec sched_range : list Z) (kept : list Z).
 
 Definition probe_f (x : Z) : Z := 3 * x + 1.
 
@@ -46,14 +53,59 @@ Definition panic_index_plan (xs : list Z) : Z :=
   failure_index (run_plan (PFork (Nat.div2 (length xs)) true PSeq (PFork (Nat.pred (length xs)) true PSeq PSeq))
                           pprobe_f items 0 (length items)).
 
+(* items that return an error (Model/ParFns.v [gather_result_par]): item i returns Err iff xs[i] is
+   divisible by 7.  [kept] is what the harness reports: the index whose error rayon's
+   `collect::<Result<Vec<_>, _>>()` returned (-1: it returned Ok and the vector was map f xs). *)
+Definition rprobe_f (ix : nat * Z) : outcome Z :=
+  if Z.eqb (Z.rem (snd ix) 7) 0 then Err ContradictoryPaths else Ok (probe_f (snd ix)).
+Definition zlist_eqb (a b : list Z) : bool :=
+  Nat.eqb (length a) (length b) && forallb (fun p => Z.eqb (fst p) (snd p)) (combine a b).
+Definition run_first (e n : nat) : list nat := e :: filter (fun i => negb (Nat.eqb i e)) (seq 0 n).
+Definition lowest_erring (xs : list Z) : Z :=
+  match find (fun ix => Z.eqb (Z.rem (snd ix) 7) 0) (combine (seq 0 (length xs)) xs) with
+  | Some ix => Z.of_nat (fst ix)
+  | None => -1
+  end.
+(* the parallel region admits the reported index *)
+Definition result_probe_ok (xs : list Z) (e : Z) : bool :=
+  let n := length xs in
+  let items := combine (seq 0 n) xs in
+  if Z.ltb e 0 then
+    Z.eqb e (-1) &&
+    match gather_result_par (rev (seq 0 n)) rprobe_f items with
+    | Ok v => zlist_eqb v (map probe_f xs)
+    | _ => false
+    end
+  else
+    match nth_error xs (Z.to_nat e) with
+    | Some x =>
+      Z.eqb (Z.rem x 7) 0 &&
+      match gather_result_par (run_first (Z.to_nat e) n) rprobe_f items with Err _ => true | _ => false end
+    | None => false
+    end.
+(* the serial collect (and the region under the index-order schedule) keeps the lowest erring index *)
+Definition serial_probe_ok (xs : list Z) (e : Z) : bool :=
+  let n := length xs in
+  let items := combine (seq 0 n) xs in
+  Z.eqb e (lowest_erring xs) &&
+  match gather_seq rprobe_f items, gather_result_par (seq 0 n) rprobe_f items with
+  | Ok v, Ok v' => Z.eqb e (-1) && zlist_eqb v (map probe_f xs) && zlist_eqb v' v
+  | Err _, Err _ => Z.leb 0 e
+  | _, _ => false
+  end.
+Definition b2z (b : bool) : Z := if b then 1 else 0.
+
 Definition obs_of (c : pcase) : list obs :=
   match c with
-  | PProbe xs s1 s2 =>
+  | PProbe xs s1 s2 kept =>
     [ (60, [s1; s2], []);
       (61, [run_with xs s1; run_with xs s2], []);
       (62, [[if is_schedule (length xs) (map Z.to_nat s1) then 1 else 0;
              if is_schedule (length xs) (map Z.to_nat s2) then 1 else 0]], []);
-      (63, [[panic_index_sched xs; panic_index_plan xs]], []) ]
+      (63, [[panic_index_sched xs; panic_index_plan xs]], []);
+      (65, [kept], []);
+      (64, [[b2z (result_probe_ok xs (nth 0 kept (-9))); b2z (result_probe_ok xs (nth 1 kept (-9)));
+             b2z (serial_probe_ok xs (nth 2 kept (-9)))]], []) ]
   end.
 
 Definition run (c : pcase) : list (list Z) := enc_all (obs_of c).
